@@ -233,6 +233,35 @@ func init() {
 			e.didCreate(&didtypes.MsgCreateDIDRequest{Did: it.did, Document: mk(it.did+"#k1", it.keys[0].b58, typ), VerificationMethodId: "x", Signature: sig, FromAddress: good})
 			e.didCreate(&didtypes.MsgCreateDIDRequest{Did: it.did, Document: mk(it.did+"#k1", "", typ), VerificationMethodId: "x", Signature: sig, FromAddress: good})
 		}
+		// relationships: a plain reference must resolve in `verificationMethod` — not in a dedicated method of the same
+		// or another relationship list, in whichever order they appear
+		{
+			listed := &didtypes.VerificationMethod{Id: it.did + "#k1", Type: didtypes.ES256K_2019, Controller: it.did, PublicKeyBase58: it.keys[0].b58}
+			dedVM := didtypes.VerificationMethod{Id: it.did + "#x", Type: didtypes.ES256K_2019, Controller: it.did, PublicKeyBase58: it.keys[1].b58}
+			shapes := [][]didtypes.VerificationRelationship{
+				{rel(it.did + "#x")},                    // dangling
+				{ded(dedVM), rel(it.did + "#x")}, // dedicated, then a reference to it
+				{rel(it.did + "#x"), ded(dedVM)}, // reference first
+				{ded(dedVM)},                     // dedicated alone
+				{ded(dedVM), rel(it.did + "#k1")},
+				{rel(it.did + "#k1"), rel(it.did + "#k1")},
+			}
+			for which := 0; which < 5; which++ {
+				for _, sh := range shapes {
+					for _, other := range [][]didtypes.VerificationRelationship{nil, {ded(dedVM)}} {
+						d := didtypes.NewDIDDocument(it.did, didtypes.WithVerificationMethods([]*didtypes.VerificationMethod{listed}),
+							didtypes.WithAuthentications([]didtypes.VerificationRelationship{rel(it.did + "#k1")}))
+						lists := []*[]didtypes.VerificationRelationship{&d.Authentications, &d.AssertionMethods, &d.KeyAgreements, &d.CapabilityInvocations, &d.CapabilityDelegations}
+						*lists[which] = sh
+						if other != nil {
+							*lists[(which+1)%5] = other
+						}
+						dd := d
+						e.didCreate(&didtypes.MsgCreateDIDRequest{Did: it.did, Document: &dd, VerificationMethodId: "x", Signature: sig, FromAddress: good})
+					}
+				}
+			}
+		}
 		// random valid / mutated documents, missing pieces, addresses
 		for i := 0; i < n; i++ {
 			idt := ids3[rng.Intn(len(ids3))]
